@@ -17,7 +17,7 @@
    repaired statements; the old witnesses are corpus cases of harness c16. *)
 From Coq Require Import ZArith List Bool.
 From TD Require Import Lib.Bytes Lib.GoSem Gen.CodecConsts Model.Codec Model.CodecSend
-  Proof.Codec Proof.CodecRT Proof.CodecSend.
+  Proof.Codec Proof.CodecRT Proof.CodecSend Lib.ReadFull Proof.ReadFullInst.
 Import ListNotations.
 Open Scope Z_scope.
 
@@ -48,6 +48,16 @@ Theorem C16_stream_resume :
        snd (read_stream crc c (seq + Z.of_nat (length ps)) fuel rest)).
 Proof. intros crc Hc c rnd Hr ps seq rest fuel. apply read_stream_frames; assumption. Qed.
 Print Assumptions C16_stream_resume.
+
+(* "Regardless of how the stream is split into reads": io.ReadFull's loop over a reader that
+   hands out the stream in pieces of ANY sizes [szs] (Lib/ReadFull.v models the loop of
+   io.ReadAtLeast) returns what the byte-list model's read_full returns -- so every theorem in
+   this file holds for every chunking of the connection. *)
+Theorem C16_chunking :
+  forall (k : Z) (s : bytes) (szs : list nat),
+    read_full_sched EEof EUnexpEof k s szs = read_full k s.
+Proof. exact codec_read_full_chunking. Qed.
+Print Assumptions C16_chunking.
 
 (* Four-byte frames are transport error codes: the reader reports the negated int32. *)
 Theorem C16_proto_err :
